@@ -25,18 +25,26 @@ RULE = (
 ASSUMPTIONS = [
     "position-mark names are identifier-like (a binary SSB has no mark names; readers invent m0, m1, ...)",
     "language names are identifiers; constants are identifiers or $-variables, never reserved words",
-    "tabs / \\r / \\f / \\v as string content or indentation are not generated (SsbCommon.g4 excludes \\r and \\f from single-line literals; the dedent rules speak of whitespace, the reader counts spaces)",
+    "tabs as indentation of a literal are not generated (the dedent rules speak of whitespace, the reader counts spaces); \\t, \\f, \\r, \\v and the Unicode line separators ARE generated as string content (strings with \\r have no exact literal: known finding F-C04-3)",
     "dungeon-mode leniency: a number 0..3 may come back as its configured constant (only in flag_SetDungeonMode / SwitchDungeonMode cases)",
 ]
 CASES = {"quick": 12800, "thorough": 300000}
 
-NASTY = ["\u2028", "\x0b", "'", '"', "\\", "\n", " ", "  ", "'''", '"""', "\\n", "\\'", '\\"', "n", "a", "B", "é", "{", "}", ",", "=", "//", "/*", "*/", "[c]", "\\\\", "0", "~", "@", "$x", ";"]
+NASTY = ["\f", "\t", "\u2028", "\x0b", "\u2029", "\x85", "\x1c", "\x1d", "\x1e", "'", '"', "\\", "\n", " ", "  ", "'''", '"""', "\\n", "\\'", '\\"', "n", "a", "B", "é", "{", "}", ",", "=", "//", "/*", "*/", "[c]", "\\\\", "0", "~", "@", "$x", ";"]
 IDENT = ["ACTOR_PLAYER", "CONST_A", "lower_case", "_u", "X1", "$SCENARIO_MAIN", "$x", "$Var_1", "LEVEL_S01P01A"]
 LANGS = ["english", "french", "german", "italian", "spanish", "japanese", "l2"]
 
 nasty_text = st.lists(st.sampled_from(NASTY), max_size=10).map("".join)
 lines_text = st.lists(st.one_of(nasty_text, st.sampled_from(["", " ", "   x", "x  ", "    ", "line"])), min_size=2, max_size=5).map("\n".join)
-any_text = st.one_of(nasty_text, lines_text, st.text(alphabet=st.characters(codec="utf-8", exclude_categories=("Cs", "Cc")), max_size=8))
+# every line starts with a blank (the reader of multi-line literals strips the indentation all lines share) - crossed
+# with everything the nasty alphabet holds, incl. the characters str.splitlines() takes for line ends
+# (backslash sequences and form feeds are left out here: together with "every line indented" they are the known finding)
+_calm_text = st.lists(st.sampled_from([x for x in NASTY if "\\" not in x and x != "\f"]), max_size=8).map("".join)
+indented_lines_text = st.lists(st.tuples(st.integers(1, 3), _calm_text).map(lambda t: " " * t[0] + t[1]), min_size=2, max_size=4).map("\n".join)
+_plain_text = st.text(alphabet=st.characters(codec="utf-8", exclude_categories=("Cs", "Cc")), max_size=8)
+# a carriage return anywhere leaves the string without an exact literal (known finding F-C04-3): generated, but rarely
+_cr_text = st.tuples(nasty_text, st.sampled_from(["\r", "\r\n", "\n\r"]), nasty_text).map("".join)
+any_text = st.one_of([nasty_text] * 6 + [lines_text] * 6 + [indented_lines_text] * 4 + [_plain_text] * 4 + [_cr_text])
 
 
 def value_strategy():
@@ -261,10 +269,12 @@ KF_UNSPELLABLE = "kf_backslash_no_exact_spelling"
 
 def unspellable(s: str) -> bool:
     """Known finding F-C04-3: the language has no literal for this string. Single-line literals read
-    backslash-n, backslash-quote as escapes and can not end in a backslash; triple-quoted literals are verbatim
-    but can not contain their own delimiter (nor end in its quote character) and lose the indentation common to
-    all lines."""
-    if not _AMBIG.search(s):
+    backslash-n, backslash-quote as escapes, can not end in a backslash and can not contain a raw carriage return or
+    form feed; triple-quoted literals are verbatim but can not contain their own delimiter (nor end in its quote
+    character), lose the indentation common to all lines and read a carriage return as a line end."""
+    if "\r" in s:
+        return True
+    if not (_AMBIG.search(s) or "\f" in s):
         return False
     if "\n" not in s:
         return not any(d not in s and not s.endswith(d[0]) for d in ("'''", '"""'))
